@@ -131,8 +131,11 @@ class LiteGen:
             n = r.randint(1, 3)
             cols = []
             for nm in names(n):
-                if r.random() < 0.55:
+                u = r.random()
+                if u < 0.5:
                     cols.append({"name": nm, "k": "scalar", "e": self.ee(r.choice(["int", "double", "double", "bool"]), 2)})
+                elif u < 0.62:
+                    cols.append({"name": nm, "k": "first", "c": self.chain("num")[0]})
                 else:
                     cols.append({"name": nm, "k": "seq", "c": self.chain("num")[0]})
             return {"k": "eventRows", "cols": cols}
@@ -196,7 +199,7 @@ def ee_q(ev: str, e: Dict[str, Any]) -> Dict[str, Any]:
 def fq_query(fq: Dict[str, Any]) -> Tuple[Dict[str, Any], List[str]]:
     names = [c["name"] for c in fq["cols"]]
     if fq["k"] == "eventRows":
-        es = [ee_q("e", c["e"]) if c["k"] == "scalar" else chain_q("e", c["c"]) for c in fq["cols"]]
+        es = [ee_q("e", c["e"]) if c["k"] == "scalar" else ({"k": "First", "s": chain_q("e", c["c"])} if c["k"] == "first" else chain_q("e", c["c"])) for c in fq["cols"]]
         return {"k": "Select", "s": {"k": "ds"}, "x": "e", "f": {"k": "dict", "ks": names, "es": es}}, names
     es = [pe_q("r", c["e"]) for c in fq["cols"]]
     return {"k": "Select", "s": {"k": "SelectMany", "s": {"k": "ds"}, "x": "e", "f": chain_q("e", fq["c"])}, "x": "r", "f": {"k": "dict", "ks": names, "es": es}}, names
@@ -249,6 +252,8 @@ def canon_package(body_lines: List[str], class_decl: List[Any], branches: List[D
                     out[key] = ren.get(v, v) if v else v
                 elif k == "dbl" and key == "v":
                     out[key] = repr(float(v))
+                elif k == "throw" and key == "msg":
+                    out[key] = "<message>"  # the text quotes the normalised query; not part of the tie
                 elif key == "arrow" or key == "call":
                     out[key] = v
                 else:
